@@ -660,6 +660,10 @@ func mkFile(stor *vstor.Stor, fd storage.FileDesc, data []byte) {
 // runSweep: one case. variant (c.N): 0 strays, 1 crash image + strays, 2 prev-journal, 3 renumbered table above
 // next, 4 missing table, 5 failing Remove, 6 plain reopen chain.
 func runSweep(c DBCase) (fail string, stats map[string]int, kc []string) {
+	if c.N >= 7 {
+		d, st := runSweepP(c)
+		return d, st, nil
+	}
 	stats = map[string]int{}
 	r := vlib.NewRNG(c.Seed)
 	base, d := buildBase(r, c.Cfg, r.Range(40, 220))
@@ -853,14 +857,23 @@ func runSweep(c DBCase) (fail string, stats map[string]int, kc []string) {
 
 // sweepPart: the child part "sweep".
 func sweepPart(a vlib.Args, res *vlib.Result) []string {
-	leveldb.VerifSetCommitHook(sweepHook)
-	per := []int{14, 8, 6, 6, 4, 8, 4}
+	leveldb.VerifSetCommitHook(stampHook)
+	per := []int{14, 8, 6, 6, 4, 8, 4, 6, 8, 2, 2}
 	if a.Thorough() {
-		per = []int{400, 250, 120, 120, 60, 200, 60}
+		per = []int{400, 250, 120, 120, 60, 200, 60, 150, 150, 20, 20}
 	}
 	if strings.Contains(a.Extra, "search") && !a.Thorough() {
 		for i := range per {
 			per[i] *= 3
+		}
+	}
+	for _, f := range strings.Split(a.Extra, ",") {
+		if strings.HasPrefix(f, "only=") {
+			for i := range per {
+				if fmt.Sprint(i) != strings.TrimPrefix(f, "only=") {
+					per[i] = 0
+				}
+			}
 		}
 	}
 	root := vlib.NewRNG(a.Seed ^ 0x5eeb)
@@ -895,7 +908,16 @@ func sweepPart(a vlib.Args, res *vlib.Result) []string {
 				d, stats, kc := runSweep(c)
 				outs[i].kc = kc
 				mu.Lock()
-				res.Eval(fmt.Sprintf("sweep%d", i), stats["opens"] > 0 && stats["remove_calls"] > 0)
+				nontriv := stats["opens"] > 0 && stats["remove_calls"] > 0
+				switch {
+				case c.N == 7:
+					nontriv = stats["journal_removes_judged"] > 0
+				case c.N == 8:
+					nontriv = stats["outputs_finished_before_close"] > 0
+				case c.N >= 9:
+					nontriv = stats["commit_failed"] > 0
+				}
+				res.Eval(fmt.Sprintf("sweep%d", i), nontriv)
 				res.Count(fmt.Sprintf("sweep_cases_variant%d", c.N), 1)
 				for k, v := range stats {
 					res.Count("sweep_"+k, v)
